@@ -27,7 +27,7 @@ import (
 
 var c13Lists = []scen.ListSpec{
 	{ID: 1, Text: "! list A\n||example.org^\n||example.org/ads\n||ads.example.com^\n/ex[a-z]+le\\.net/\n/ad$domain=example.org\n/ads$domain=example.org\n@@||example.org^$generichide\n##.g1\nexample.org##.s1\nexample.org#@#.g2\n##.g2\n/(/\n@@||docsite.test^$document\nmetrics.example.com^\n||cdn.test/blocked.js\n@@||news.example.org/reader/$urlblock\n||tracker.test^\n~other.net##.g3\n##.u1\n##.u2\n##.u3\n##.u4\n"},
-	{ID: 2, Text: "# list B\n0.0.0.0 example.org\n:: example.org\n127.0.0.1 hosts.test alias.test\n||blocked.test^$client=10.0.0.1\n||tagged.test^$ctag=pc\n||tagged.test^$dnstype=AAAA,important\n||rw2.test^$dnsrewrite=3.3.3.3\n||rw2.test^$dnsrewrite=3.3.3.3,badfilter\n||rw2.test^$dnsrewrite=4.4.4.4\n||rw2.test^$dnsrewrite=5.5.5.5\n@@||rw2.test^$dnsrewrite=4.4.4.4\n||rw.test^$dnsrewrite=1.2.3.4\n||rw.test^$dnsrewrite=2.3.4.5\n@@||rw.test^$dnsrewrite=1.2.3.4\n||rw.test^$dnsrewrite=NOERROR;MX;10 mx.test\n@@||rw.test^$dnsrewrite=NOERROR;MX;10 mx.test\n/h[o0]sts\\.test/\n"},
+	{ID: 2, Text: "# list B\n0.0.0.0 example.org\n:: example.org\n127.0.0.1 hosts.test alias.test\n||blocked.test^$client=10.0.0.1\n||tagged.test^$ctag=pc\n||tagged.test^$dnstype=AAAA,important\n||rw2.test^$dnsrewrite=3.3.3.3\n||rw2.test^$dnsrewrite=3.3.3.3,badfilter\n||rw2.test^$dnsrewrite=4.4.4.4\n||rw2.test^$dnsrewrite=5.5.5.5\n@@||rw2.test^$dnsrewrite=4.4.4.4\n||rw.test^$dnstype=~TXT\n||rw.test^$dnsrewrite=1.2.3.4\n||rw.test^$dnsrewrite=2.3.4.5\n||rw.test^$dnstype=A\n@@||rw.test^$dnsrewrite=1.2.3.4\n||rw.test^$dnsrewrite=NOERROR;MX;10 mx.test\n@@||rw.test^$dnsrewrite=NOERROR;MX;10 mx.test\n/h[o0]sts\\.test/\n"},
 	{ID: -3, Text: "*$denyallow=example.com|hosts.test,dnstype=TXT\n||blocked.test^$ctag=~pc\n@@||ads.example.com^$script\n||example.org^$third-party\n||example.org^"}, // the text of a rule of list A again; last line without a terminator
 }
 
